@@ -490,6 +490,14 @@ def _harness(ctx, cfg):
         if "iou" in disabled:
             p.with_iou = False
         ctx.input("disabled", disabled)
+    cyc = cfg.get("cycle")
+    if cyc:
+        # C10 "for any order of enabling, disabling and editing": the feature goes through a full cycle on THIS object -
+        # enabled with recomputation and disabled again before the edit, enabled again after it (a run from a
+        # constructed state cannot see bookkeeping that only such a history fills, e.g. a cache of computed keys)
+        p.tr.enable_features([cyc])
+        p.tr.disable_features([cyc])
+        ctx.input("cycle", cyc)
     raw_n0 = [dict(d) for d in p.g.nattr]
     raw_e0 = {e: dict(d) for e, d in p.g.eattr.items()}
     S0 = Snap(p, k)
@@ -612,6 +620,18 @@ def _harness(ctx, cfg):
     ctx.witness("state_changed", Not(And(S.same_graph(S0, S1), S.same_attrs(S0, S1), seg_same(p.seg0, seg1))))
 
 
+    if cyc:
+        tr.enable_features([cyc])
+        if cyc == "iou":
+            p.with_iou = True
+        else:
+            p.rp_keys = list(p.rp_keys) + [cyc]
+        ctx.tag("cycle_reenabled")
+        Sc = Snap(p, k)
+        sarr_c = SArr(seg.c.copy())
+        ref = iou_consistent_snap(p, Sc, sarr_c) if cyc == "iou" else rp_consistent_snap(p, Sc, sarr_c)
+        ctx.oblige("C10.values_after_reenable_equal_reference", ref, "C10")
+        ctx.oblige("C10.reenabled_key_registered", cyc in tr.features and cyc in tr.annotators.features, "C10")
     mid = cfg.get("enable_mid")
     if mid:
         # a feature is switched on BETWEEN the edit and its undo (enable/disable are not history entries): the stored
